@@ -233,6 +233,7 @@ theorem C04_arm (ext : Ext F) (laws : ExtLaws ext) (s : Scalar) (a : Action) (v 
   | parseInt32Keep => simp [armSoundIn] at hs
   | parseFloatFinite t => exact C04_arm_parseFloatFinite ext s t v hs hw
   | fmtUint => simp [armSoundIn] at hs
+  | convTrunc t => simp [armSoundIn] at hs
 
 /-- **C04_leaf.**  Table level: whatever arm the regenerated `CoerceIn` table selects for the supplied
 value, if it passes the decidable test the outcome is an error (no resolver call) or a conforming
